@@ -278,6 +278,20 @@ func c06hasGroup(r *fxRun) bool {
 	return false
 }
 
+// c06queueOf reads the queue of a binding from the hook's configuration text ("main" if none).
+func c06queueOf(config, binding string) string {
+	in := false
+	for _, ln := range strings.Split(config, "\n") {
+		t := strings.TrimSpace(ln)
+		if strings.HasPrefix(t, "- name: ") {
+			in = strings.TrimPrefix(t, "- name: ") == binding
+		} else if in && strings.HasPrefix(t, "queue: ") {
+			return strings.Trim(strings.TrimPrefix(t, "queue: "), "\"")
+		}
+	}
+	return "main"
+}
+
 func c06classifyDone(spec c06spec, r *fxRun) bool {
 	for _, c := range r.Contexts {
 		if c["binding"] == "onStartup" || c["type"] == "Synchronization" {
@@ -350,6 +364,12 @@ func c06check(obs *c06obs) (string, string) {
 		for _, c := range r.Contexts {
 			b, _ := c["binding"].(string)
 			ty, _ := c["type"].(string)
+			// outside the start-up executions (which all run in main) a binding's contexts are
+			// delivered in the binding's own queue: an execution in another queue is a start-up
+			// execution delivered once more
+			if wantQ := c06queueOf(t.config, b); what == "" && b != "" && r.Queue != wantQ {
+				return "C06b startup-execution-repeated", fmt.Sprintf("hook %s: %s/%s of a binding of queue %q was executed in queue %q outside its start-up execution; runs: %s", r.Hook, b, ty, wantQ, r.Queue, c03runs(fx))
+			}
 			// never a Synchronization for switched-off / v0 bindings
 			for _, ns := range t.noSync {
 				if b == ns && ty == "Synchronization" {
